@@ -452,3 +452,193 @@ func TestC10StreamingCancel(t *testing.T) {
 		})
 	})
 }
+
+// TestC10SilentInsidePacket: the server sends the first bytes of a packet - the code, part of the
+// body - and then nothing more, ever. A cancellation or a deadline after that ends the call all
+// the same: an error matching the context's, within the read timeout plus a grace period, the
+// connection closed, no goroutine left (ungated; the reads of a packet body carry no deadline
+// of their own, so only the cancellation can end them).
+func TestC10SilentInsidePacket(t *testing.T) {
+	st := stats.G()
+	rapid.Check(t, func(rt *rapid.T) {
+		rapid.SyncTest(rt, func(rt *rapid.T) {
+			comp := compModes[rapid.SampledFrom([]int{0, 2}).Draw(rt, "compression")]
+			readTO := rapid.SampledFrom([]time.Duration{200 * time.Millisecond, time.Second, ch.NoTimeout}).Draw(rt, "read-timeout")
+			kind := rapid.SampledFrom([]string{"data", "progress", "exception", "log"}).Draw(rt, "cut-packet")
+			how := rapid.SampledFrom([]string{"cancel", "deadline", "cancel-under-far-deadline"}).Draw(rt, "how")
+			after := time.Duration(rapid.IntRange(1, 1500).Draw(rt, "after-ms")) * time.Millisecond
+			e := newEnv(54460)
+			defer e.conn.ForceClose()
+			cols := drawInput(rt, "col", 1, 1)
+			var it Item
+			switch kind {
+			case "data":
+				it = Item{Kind: "data", Block: modelBlock(cols)}
+			case "progress":
+				it = Item{Kind: "progress", Progress: ref.Progress{Rows: 1 << 40, Bytes: 1 << 50, TotalRows: 1 << 41}}
+			case "exception":
+				it = Item{Kind: "exception", Exc: []ref.Exception{{Code: 241, Name: "DB::Exception", Message: "Memory limit (total) exceeded", Stack: "0. main"}}}
+			case "log":
+				it = Item{Kind: "log", Logs: []logRow{{Time: 1, Host: "h", QueryID: "q", Source: "s", Text: "t"}}}
+			}
+			cutPM := rapid.IntRange(1, 999).Draw(rt, "cut-per-mille")
+			inner := itemStep(it, simnet.AfterQuery(1), comp.Method, nil)
+			e.srv.Steps = append(e.srv.Steps, simnet.Step{Name: "half-" + kind, When: simnet.AfterQuery(1), Bytes: func(cs *ref.ClientStream) []byte {
+				b := inner.Bytes(cs)
+				if len(b) < 2 {
+					return b
+				}
+				return b[:min(len(b)-1, max(1, len(b)*cutPM/1000))]
+			}})
+			opt := baseOptions(54460, comp)
+			opt.ReadTimeout = readTO
+			client, err := e.connect(context.Background(), opt)
+			if err != nil {
+				rt.Fatalf("connect: %v", err)
+			}
+			parent, cancel := context.WithCancel(context.Background())
+			defer cancel()
+			ctx := parent
+			var want error = context.Canceled
+			switch how {
+			case "deadline":
+				var c2 context.CancelFunc
+				ctx, c2 = context.WithTimeout(parent, after)
+				defer c2()
+				want = context.DeadlineExceeded
+			case "cancel-under-far-deadline":
+				var c2 context.CancelFunc
+				ctx, c2 = context.WithTimeout(parent, time.Hour)
+				defer c2()
+			}
+			start := time.Now()
+			if how != "deadline" {
+				go func() { time.Sleep(after); cancel() }()
+			}
+			var res proto.Results
+			for _, c := range cols {
+				res = append(res, proto.ResultColumn{Name: c.name, Data: c.kind.New().Column()})
+			}
+			q := ch.Query{Body: "SELECT x", Result: res, OnResult: func(context.Context, proto.Block) error { return nil },
+				OnProgress: func(context.Context, proto.Progress) error { return nil }, OnLogs: func(context.Context, []ch.Log) error { return nil }}
+			var derr error
+			done := make(chan struct{})
+			go func() { defer close(done); derr = client.Do(ctx, q) }()
+			lim := after + 3*time.Second
+			if readTO > 0 {
+				lim += readTO
+			}
+			hung := false
+			select {
+			case <-done:
+			case <-time.After(lim):
+				hung = true
+				e.conn.ForceClose()
+				cancel()
+				<-done
+			}
+			st.Case(stats.Hash("c10half", kind, how, after, readTO, cutPM, comp.Name, typeNamesOf(cols)[0]), true, func() any {
+				return map[string]any{"kind": "silent-inside-packet", "cut_packet": kind, "cut_per_mille": cutPM, "how": how, "after": after.String(), "read_timeout": readTO.String(), "hung": hung, "error": fmt.Sprint(derr)}
+			})
+			if hung {
+				rt.Fatalf("the server went silent inside a %s packet (after %d per mille of its bytes); %s after %v: Do had not returned %v later (read timeout %v); after the connection was closed for it, it returned %v", kind, cutPM, how, after, lim-after, readTO, derr)
+			}
+			if derr == nil || !errors.Is(derr, want) {
+				rt.Fatalf("silent inside a %s packet, %s after %v: Do returned %v, which does not match %v", kind, how, after, derr, want)
+			}
+			if d := time.Since(start); d < after {
+				rt.Fatalf("Do returned after %v, before the %s at %v: %v", d, how, after, derr)
+			}
+			synctest.Wait()
+			if !client.IsClosed() || e.conn.NumCloseCalls() == 0 {
+				rt.Fatalf("silent inside a %s packet, %s: after the call IsClosed()=%v, Close calls=%d (%v)", kind, how, client.IsClosed(), e.conn.NumCloseCalls(), derr)
+			}
+			if leaks := leakedGoroutines(); len(leaks) > 0 {
+				rt.Fatalf("%d goroutine(s) outlive the call:\n%s", len(leaks), strings.Join(leaks, "\n---\n"))
+			}
+		})
+	})
+}
+
+// TestC10PeerStopsReading: a streaming INSERT whose peer stops reading after the schema exchange,
+// so that the sender's next write blocks like on a socket with a full send buffer. A cancellation
+// or deadline ends the call all the same: the Cancel packet is best effort (it cannot be written
+// either), the connection is closed, the error matches the context's and nothing is left running.
+func TestC10PeerStopsReading(t *testing.T) {
+	st := stats.G()
+	rapid.Check(t, func(rt *rapid.T) {
+		rapid.SyncTest(rt, func(rt *rapid.T) {
+			comp := compModes[rapid.SampledFrom([]int{0, 2}).Draw(rt, "compression")]
+			readTO := rapid.SampledFrom([]time.Duration{200 * time.Millisecond, time.Second}).Draw(rt, "read-timeout")
+			how := rapid.SampledFrom([]string{"cancel", "deadline", "cancel-under-far-deadline"}).Draw(rt, "how")
+			after := time.Duration(rapid.IntRange(1, 1500).Draw(rt, "after-ms")) * time.Millisecond
+			e := newEnv(54460)
+			defer e.conn.ForceClose()
+			cols := drawInput(rt, "col", 2, 1)
+			hdr := itemStep(headerItem(cols), simnet.AfterQuery(1), comp.Method, nil)
+			hdr.Then = func(cn *simnet.Conn) { cn.StallWrites() }
+			e.srv.Steps = append(e.srv.Steps, hdr)
+			opt := baseOptions(54460, comp)
+			opt.ReadTimeout = readTO
+			client, err := e.connect(context.Background(), opt)
+			if err != nil {
+				rt.Fatalf("connect: %v", err)
+			}
+			parent, cancel := context.WithCancel(context.Background())
+			defer cancel()
+			ctx := parent
+			var want error = context.Canceled
+			switch how {
+			case "deadline":
+				var c2 context.CancelFunc
+				ctx, c2 = context.WithTimeout(parent, after)
+				defer c2()
+				want = context.DeadlineExceeded
+			case "cancel-under-far-deadline":
+				var c2 context.CancelFunc
+				ctx, c2 = context.WithTimeout(parent, time.Hour)
+				defer c2()
+			}
+			if how != "deadline" {
+				go func() { time.Sleep(after); cancel() }()
+			}
+			q := ch.Query{Body: "INSERT INTO t VALUES", Input: protoInput(cols),
+				OnInput: func(ctx context.Context) error {
+					for _, c := range cols {
+						c.col.Column().Reset()
+						c.col.AppendBulk(c.rows)
+					}
+					return nil
+				}}
+			var derr error
+			done := make(chan struct{})
+			go func() { defer close(done); derr = client.Do(ctx, q) }()
+			lim := after + readTO + time.Second + 3*time.Second // read timeout, the library's second for the Cancel packet, grace
+			hung := false
+			select {
+			case <-done:
+			case <-time.After(lim):
+				hung = true
+				e.conn.ForceClose()
+				cancel()
+				<-done
+			}
+			st.Case(stats.Hash("c10stall", how, after, readTO, comp.Name, fmt.Sprint(typeNamesOf(cols))), true, func() any {
+				return map[string]any{"kind": "peer-stops-reading", "how": how, "after": after.String(), "read_timeout": readTO.String(), "hung": hung, "error": fmt.Sprint(derr)}
+			})
+			if hung {
+				rt.Fatalf("the peer stopped reading during a streaming INSERT; %s after %v: Do had not returned %v later (read timeout %v); after the connection was closed for it, it returned %v", how, after, lim-after, readTO, derr)
+			}
+			if derr == nil || !errors.Is(derr, want) {
+				rt.Fatalf("peer stopped reading, %s after %v: Do returned %v, which does not match %v", how, after, derr, want)
+			}
+			synctest.Wait()
+			if !client.IsClosed() || !e.conn.Closed() {
+				rt.Fatalf("peer stopped reading, %s: after the call IsClosed()=%v, connection closed=%v (%v)", how, client.IsClosed(), e.conn.Closed(), derr)
+			}
+			if leaks := leakedGoroutines(); len(leaks) > 0 {
+				rt.Fatalf("%d goroutine(s) outlive the call:\n%s", len(leaks), strings.Join(leaks, "\n---\n"))
+			}
+		})
+	})
+}
